@@ -193,6 +193,12 @@ def run_tasks(tasks, root, procs=None, use_cache=True):
                         dep = None
                     out[i] = {"task": getattr(tasks[i], "name", "?"), "function": getattr(tasks[i], "name", "?"), "status": "out-of-subset", "obligations": [], "dep": dep,
                               "detail": "the verification task exceeded its wall-clock limit of %d s and was stopped (no verdict)" % limit}
+                    # the directed search on the real code that the task would have run on failure
+                    if hasattr(tasks[i], "failure_search"):
+                        try:
+                            tasks[i].failure_search(out[i])
+                        except Exception:      # noqa
+                            pass
     finally:
         for pid in running:
             try:
